@@ -527,10 +527,11 @@ def prepare_programs(ctx, rnd):
     add("pinned", PINNED)
     td = os.path.join(vlib.REPO, "analysis", "taint", "testdata")
     light = ["closures_paper", "tuples"]
-    heavy = ["defers", "example1", "interfaces", "globals", "panics"] if ctx.tier == "thorough" else []
+    heavy = ["defers", "example1", "builtins"] if ctx.tier == "thorough" else []      # single-package, fmt/strings/strconv users
     for n in light + heavy:
-        if os.path.isdir(os.path.join(td, n)):
-            add(n, os.path.join(td, n))
+        src = os.path.join(td, n)
+        if os.path.isdir(src) and not any(os.path.isdir(os.path.join(src, x)) for x in os.listdir(src)):
+            add(n, src)
     stds = []
     for name, src in [("c20std", STD_LITE)] + ([("c20stdfmt", STD_FULL)] if ctx.tier == "thorough" else []):
         d = os.path.join(root, name)
